@@ -416,5 +416,8 @@ pub fn run(tier: Tier, _replay: Option<String>) -> i32 {
         p.validated = p.evaluations;
         report.merge(p);
     });
+    // the statistic itself: what a trajectory reports as its acceptance rate (0 for a divergent
+    // leapfrog) - histories of the real chain judged against the mirror chain's recorded energies
+    report.merge(crate::c03::acceptance_statistic_partial(tier));
     report.finish()
 }
